@@ -60,6 +60,10 @@ class DtypeStrings(Contract):
                 yc = Fxp(None, dtype=ctext)
                 chk('parse_complex', (yc.signed, yc.n_word, yc.n_frac) == (s, n, f) and yc.vdtype == complex, [f, ctext])
                 chk('render_complex', Fxp(1 + 1j, s, n, f).dtype == ctext, [f, ctext])
+                zc = Fxp(None, s, n, f); zc.resize(dtype=ctext)          # a real object resized with a complex dtype string
+                chk('parse_resize_complex', zc.dtype == ctext and zc.get_dtype('fxp') == ctext and zc.vdtype == complex, [f, ctext, zc.dtype])
+                zr = Fxp(1 + 1j, s, n, f); zr.resize(dtype=want_fxp)
+                chk('parse_resize_real', (zr.signed, zr.n_word, zr.n_frac) == (s, n, f), [f, want_fxp, zr.dtype])
                 chk('get_sizes_complex', _sizes(utils, ctext) == (s, n, f), [f, ctext, _sizes(utils, ctext)])
             if n - f >= 0:
                 for text in (want_q, want_q.lower(), ('S' if s else 'U') + '%d.%d' % (n - f, f), ('s' if s else 'u') + '%d.%d' % (n - f, f)):
@@ -71,7 +75,7 @@ class DtypeStrings(Contract):
         if obs['exc']:
             return {}
         names = ['render_default', 'render_fxp', 'render_Q', 'render_none', 'parse_ctor', 'parse_resize', 'get_sizes',
-                 'parse_complex', 'render_complex', 'get_sizes_complex', 'parse_Q']
+                 'parse_complex', 'parse_resize_complex', 'parse_resize_real', 'render_complex', 'get_sizes_complex', 'parse_Q']
         failed = {b[0] for b in obs['bad']}
         out = {k: (k not in failed) for k in names}
         out['nonvacuous'] = obs['cases'] > 50
